@@ -31,7 +31,7 @@ ASSUMPTIONS = ["mtime is advanced by whole seconds through os.utime (logical clo
                "CRC32 collisions between different generated sources are not sampled"]
 REQUIRED_MONITORS = ["evaluates_current_sources", "source_to_library_injective", "cache_listing_is_image"]
 REQUIRED_BUCKETS = {"quick": ["op:edit_py_const", "op:edit_py_default", "op:edit_inc", "op:edit_template", "op:dtype",
-                              "op:revert", "op:edit_source_list", "op:load_with_other_integration_size", "loader:core", "loader:sasview", "loader:composite", "loader:nested", "eval:same_process", "eval:fresh_process", "revert_then_same_process",
+                              "op:revert", "op:edit_source_list", "op:load_with_other_integration_size", "loader:core", "loader:sasview", "loader:composite", "loader:nested", "eval:while-definition-broken", "eval:same_process", "eval:fresh_process", "revert_then_same_process",
                               "default_only_edit_then_same_process", "clock:past", "clock:future", "clock:near-now", "clock:subsecond"]}
 REQUIRED_BUCKETS["thorough"] = REQUIRED_BUCKETS["quick"]
 HERE = os.path.dirname(os.path.abspath(__file__))
@@ -85,6 +85,7 @@ class World:
         # S: which of the two include files the definition lists; V2: version of the second one (offset 1000)
         self.state = {"K": 1, "D": 1, "V": 1, "T": 1, "S": 1, "V2": 1001}
         self.history = {"py": [], "inc": [], "inc2": [], "tpl": []}
+        self.broken = False
         self.write("py")
         self.write("inc")
         self.write("inc2")
@@ -102,11 +103,13 @@ class World:
         return {"py": py_text(s["K"], s["D"], s["S"]), "inc": inc_text(s["V"]), "inc2": inc_text(s["V2"]),
                 "tpl": self.tpl_base + "\n#define RTM_TEMPLATE_VERSION %d\n" % s["T"]}[which]
 
-    def write(self, which, snapshot=None):
+    def write(self, which, snapshot=None, broken=False):
         if snapshot is not None:
             self.state.update(snapshot)
         with open(self.files[which], "w") as f:
-            f.write(self.text(which))
+            f.write(self.text(which) + ("\ndef broken(:\n" if broken else ""))
+        if which == "py":
+            self.broken = broken
         self.now += self.tick
         os.utime(self.files[which], (self.now, self.now))
         keys = {"py": ("K", "D", "S"), "inc": ("V",), "inc2": ("V2",), "tpl": ("T",)}[which]
@@ -181,6 +184,10 @@ def gen_history(rng, h):
             ops.append(["eval", "fresh" if ops[-1][1] == "same" else "same"])
     # constructive tails
     # the list of included C files changes and changes back; a C edit after a definition-file edit that kept the list
+    # an intermediate edit that does not parse (every loader refuses it), then the corrected file
+    ops += [["eval", "same"], ["eval", "same"], ["eval", "same"], ["break_py", None], ["eval", "same"], ["eval", "same"],
+            ["eval", "same"], ["edit_py_const", None], ["eval", "same"], ["eval", "same"], ["eval", "same"], ["eval", "same"],
+            ["edit_inc", None], ["eval", "same"], ["eval", "same"], ["eval", "same"]]
     ops += [["eval_size", "same"], ["eval", "same"], ["eval_size", "same"], ["edit_py_const", None], ["eval", "same"],
             ["edit_source_list", None], ["eval", "same"], ["edit_inc", None], ["eval", "same"], ["edit_source_list", None],
             ["eval", "same"], ["edit_py_const", None], ["eval", "same"], ["edit_inc", None], ["eval", "same"], ["eval", "fresh"]]
@@ -226,6 +233,11 @@ def run_case(case, rec):
                     w.write("inc2")
                 edits += 1
                 last_edit = op
+            elif op == "break_py":
+                w.state["K"] += 1
+                w.write("py", broken=True)
+                edits += 1
+                last_edit = op
             elif op == "edit_source_list":
                 w.state["S"] = 3 - w.state["S"]
                 w.write("py")
@@ -267,6 +279,11 @@ def run_case(case, rec):
                         FSIZE[dtype] if via in ("core", "composite", "nested") else 8.0, float(s["D"]), float(ngauss or 76)]
             ctx = {"step": step, "history": ops[:step + 1][-10:], "dtype": dtype, "process": arg,
                    "expected_versions": dict(zip(["py_const", "include", "template", "float_size", "py_default", "gauss_n"], expected))}
+            if w.broken:
+                # the definition file on disk does not parse: the load is refused, no value of an older version
+                rec.check("broken_definition_refused", "error" in r, dict(ctx, loader=via, returned=r.get("values")))
+                rec.bucket("eval:while-definition-broken")
+                continue
             if "error" in r:
                 rec.check("evaluates_current_sources", False, dict(ctx, error=r["error"], tb=r.get("tb")))
                 continue
